@@ -368,6 +368,18 @@ def safe_cast(expected_type: Type[T], data: Any) -> T:
     return cast(expected_type, cast(object, data))  # type: ignore[valid-type]
 
 
+def serialize_simple(value: Any) -> str:
+    """Render an already serialised parameter value as text in OpenAPI `simple` style (path, header).
+
+    Booleans become ``true``/``false``, arrays are comma-separated, everything else goes through ``str()``.
+    """
+    if isinstance(value, bool):
+        return "true" if value else "false"
+    if isinstance(value, (list, tuple)):
+        return ",".join(serialize_simple(item) for item in value)
+    return str(value)
+
+
 class DataclassSerializer:
     """Utility for converting dataclass instances to dictionaries for API serialisation.
 
